@@ -25,7 +25,8 @@ def _setup(mode, dts, tof_term=None, shapes=None):
 
 
 def job(j, seed):
-    mode, dts, what = j
+    mode, dts, what, *rest = j
+    via_graph = bool(rest and rest[0] == 'graph')
     import numpy as np
     from symex import core as C
     from symex import loader
@@ -37,9 +38,13 @@ def job(j, seed):
     fresh_run()
     kname, earg, uE, uT, L1, L2 = _setup(mode, dts)
     f = getattr(tof, kname)
+    if via_graph:
+        # what convert() uses: the 'energy_transfer' node of the inelastic graph (same contract as the kernel)
+        gt = loader.load('conversion.graph.tof')
+        f = (gt.direct_inelastic if mode == 'direct' else gt.indirect_inelastic)('tof')['energy_transfer']
     obs, cands = [], []
-    tag = f'{mode}[{",".join(dts)}]'
-    case = {'mode': mode, 'dtypes': list(dts)}
+    tag = f'{mode}[{",".join(dts)}]' + (' via graph' if via_graph else '')
+    case = {'mode': mode, 'dtypes': list(dts), 'via_graph': via_graph}
     mn = MN()
     s1, s2, sE, sT = (C.R(u.scale_rat()) for u in (L1.unit, L2.unit, uE, uT))
     exp_dt = 'float32' if dts[0] == 'float32' and dts[3] == 'float32' else 'float64'
@@ -189,6 +194,7 @@ def run(chk):
         dt_grid = list(itertools.product(['float64', 'float32'], repeat=4))
     jobs = [(m, d, w) for m in MODES for d in dt_grid for w in ('conservation', 'boundary')]
     jobs += [(m, d, 'overflow') for m in MODES for d in (('float64',) * 4, ('float32',) * 4)]
+    jobs += [(m, ('float64',) * 4, w, 'graph') for m in MODES for w in ('conservation', 'boundary')]
     run_jobs(chk, job, jobs)
     from . import shimval
     shimval.validate(chk, 'inelastic', 40 if chk.tier == 'quick' else 240)
@@ -212,6 +218,9 @@ def replay_real(case):
     dts = case['dtypes']
     kname, earg, fixed, free = MODES[mode]
     f = getattr(rt, kname)
+    if case.get('via_graph'):
+        from scippneutron.conversion.graph import tof as gt
+        f = (gt.direct_inelastic if mode == 'direct' else gt.indirect_inelastic)('tof')['energy_transfer']
     mn = mp.mpf(float(sc.constants.m_n.value))
     meV = mp.mpf(float(sc.scalar(1.0, unit='meV').to(unit='J').value))
     rng = np.random.default_rng(case.get('seed', 0))
